@@ -55,6 +55,10 @@ def cases(tier):
             for n in (3, 4):
                 for p, p2 in itertools.combinations_with_replacement(range(1, n), 2):
                     out.append({"rel": "refine", "det": det, "n": n, "pos": [p, p2], "_weight": 5 ** (n + 2)})
+        for n in range(2, (4 if q else 6) + 1):
+            # repeated first / last sample (a non-reversal sample at the ends)
+            out.append({"rel": "repeat_end", "det": det, "n": n, "where": "first", "_weight": 5 ** n})
+            out.append({"rel": "repeat_end", "det": det, "n": n, "where": "last", "_weight": 5 ** n})
         for n in range(2, (5 if q else 7) + 1):
             out.append({"rel": "negate", "det": det, "n": n, "_weight": 5 ** n})
             if det != "fkm":
@@ -175,6 +179,24 @@ def run(ctx, case):
                 ctx.claim(sym_and(*conj), "refine.index", (o, base, image))
         else:
             ctx.claim(True, "refine.index")
+        return o
+
+    if rel == "repeat_end":
+        first = case["where"] == "first"
+        sig = ([xs[0]] + list(xs)) if first else (list(xs) + [xs[-1]])
+        o = _run(det, _arr(ctx, sig))
+        ctx.signature((rel, det, n, case["where"], base["index_from"], base["index_to"], base["residual_index"]), trivial=(ncyc == 0))
+        ctx.claim(eq_struct({k: o[k] for k in vkeys}, {k: base[k] for k in vkeys}), "refine.values", (o, base))
+        if has_index:
+            exp = {}
+            for k in ikeys:
+                if first:
+                    exp[k] = [(i + 1 if i > 0 else 0) for i in base[k]]        # the plateau at the start is indexed at its first sample
+                else:
+                    exp[k] = list(base[k])
+            if not first:
+                exp["residual_index"] = exp["residual_index"][:-1] + [n]          # the last sample of the signal
+            ctx.claim({k: o[k] for k in ikeys} == exp, "refine.index", (o, exp))
         return o
 
     if rel == "negate":
